@@ -227,6 +227,37 @@ def history_job(interp, c, case):
          "sensitivity query restores stale parameters", rp, {})
 
 
+def real_model_job(interp, c, case):
+    """no stub: a real Model through the real interface.  A reversible step written as ONE reaction with the net rate kf*A - kr*B
+    (of either sign) plus a first-order decay: the right-hand side is linear in the state and in each parameter, so every scheme is
+    exact and the reported matrices must be the analytic ones - also where the net flux runs backwards."""
+    method, = case
+    A_ = interp.load("bioscrape.analysis")
+    T = interp.load("bioscrape.types")
+    kf, kr, kd = c.real("kf", lo=0, lo_strict=True), c.real("kr", lo=0, lo_strict=True), c.real("kd", lo=0, lo_strict=True)
+    M = T.ns["Model"](species=["A", "B"], parameters=[("kf", kf), ("kr", kr), ("kd", kd)],
+                      reactions=[(["A"], ["B"], "general", {"rate": "kf*A - kr*B"}), (["B"], [], "massaction", {"k": "kd"})])
+    a, b = c.real("A", lo=0), c.real("B", lo=0)
+    st = {"A": a, "B": b}
+    order = M.get_species_list()
+    x = [st[s_] for s_ in order]
+    ia, ib = order.index("A"), order.index("B")
+    rp = dict(kind="real_model", method=method)
+    syms = {"kf": kf, "kr": kr, "kd": kd, "A": a, "B": b}
+    J = A_.ns["py_get_jacobian"](M, list(x), method=method)
+    wantJ = {(ia, ia): -kf, (ia, ib): kr, (ib, ia): kf, (ib, ib): -kr - kd}
+    _rep(c, s_and(*[J[i, j] == wantJ[(i, j)] for i in range(2) for j in range(2)]),
+         "[%s] real model A -> B at net rate kf*A - kr*B, B -> 0: the Jacobian is [[-kf, kr], [kf, -kr-kd]] at every state, whichever way "
+         "the net flux runs" % method, "jacobian of a real model", rp, syms)
+    for pname, want in (("kf", {ia: -a, ib: a}), ("kr", {ia: b, ib: -b}), ("kd", {ia: 0, ib: -b})):
+        Z = A_.ns["py_get_sensitivity_to_parameter"](M, list(x), pname, method=method)
+        _rep(c, s_and(*[Z[i] == want[i] for i in range(2)]),
+             "[%s] real model: d f / d %s is the analytic derivative at every state" % (method, pname), "sensitivity of a real model", rp, syms)
+    now = M.get_parameter_dictionary()
+    _rep(c, s_and(now["kf"] == kf, now["kr"] == kr, now["kd"] == kd), "[%s] real model: parameters restored" % method,
+         "real model parameters changed", rp, syms)
+
+
 def check(tier):
     ck = Check("C18", "model_checking", tier)
     ns = [2] if tier == "quick" else [2, 3]
@@ -241,6 +272,8 @@ def check(tier):
                    dict(cases=[(2, method, extra)]), fresh=True)
     for method in METHODS:
         ck.add("history/%s" % method, "harness.C18", "history_job", dict(cases=[(method,)]), fresh=True)
+    for method in METHODS:
+        ck.add("real-model/%s" % method, "harness.C18", "real_model_job", dict(cases=[(method,)]), fresh=True)
     ck.bounds = dict(states="n = %s" % ns, polynomial_degree="exactness class of each scheme (4/2/1/1) and one degree above",
                      step="h = 0.01 as hard-wired in SensitivityAnalysis.__init__")
     ck.assumptions = [
